@@ -5,7 +5,7 @@
 From Coq Require Import List NArith ZArith Bool Lia ZifyBool ZifyN Arith.
 Import ListNotations.
 Require Import Verif.Lib.Wire Verif.Lib.Text Verif.Lib.PathNorm Verif.Lib.C02PathNorm Verif.Lib.Utf8
-               Verif.Lib.Percent Verif.Gen.Facts_C02 Verif.Model.C02.
+               Verif.Lib.Percent Verif.Gen.Facts_C02 Verif.Model.C02 Verif.Model.C07.
 Ltac Zify.zify_post_hook ::= Z.div_mod_to_equations.
 Open Scope N_scope.
 
@@ -111,7 +111,6 @@ Proof.
 Qed.
 
 (* ------------------------------------------------------------ a quoted path *)
-Definition q (s : text) : text := Percent.quote path_segment_safe (Utf8.encode s).
 Definition qpath (segs : list text) : text := join [slash] (map q segs).
 
 Lemma safe_facts :
@@ -150,7 +149,7 @@ Proof.
   - simpl. apply U_q. assumption.
   - change (join [slash] (map q (x :: y :: r))) with (q x ++ [slash] ++ join [slash] (map q (y :: r))).
     change (join [slash] (map encode (x :: y :: r))) with (encode x ++ [slash] ++ join [slash] (map encode (y :: r))).
-    rewrite <- !app_assoc. rewrite U_q by assumption. simpl app at 1.
+    rewrite <- !app_assoc. rewrite U_q by assumption. cbn [app].
     rewrite U_cons by (unfold slash; lia). rewrite IH. reflexivity.
 Qed.
 End Unquoter.
